@@ -1,14 +1,22 @@
 #!/bin/bash
 # tools/seedregress.sh [pattern] : re-run every kept seeded change against its property's quick check
-# (apply to /repo, check, undo). Prints one line per seed: CAUGHT / MISSED / N-A (patch no longer applies).
+# (apply to /repo, check, undo). Prints one line per seed: CAUGHT / MISSED / N-A (patch no longer
+# applies) / NEUTRALISED (a later fix: commit in /repo made the change harmless; meta.json says which).
+# meta.json may name another property's check in "regress_prop" (a change filed under one property
+# but anchored in another's code).
 cd /verif || exit 2
 pat="${1:-C}"
-for d in seeded/${pat}*-*/; do
+for d in seeded/${pat}*/; do
   s=$(basename "$d"); prop=${s%%-*}
   [ -f "$d/patch.diff" ] || continue
+  rp=$(python3 -c "import json;print(json.load(open('/verif/$d/meta.json')).get('regress_prop',''))" 2>/dev/null)
+  [ -n "$rp" ] && prop=$rp
+  neut=$(python3 -c "import json;print(json.load(open('/verif/$d/meta.json')).get('neutralised_by',''))" 2>/dev/null)
   if ! git -C /repo apply --check "/verif/$d/patch.diff" 2>/dev/null; then echo "$s N-A (patch does not apply to the current tree)"; continue; fi
   out=$(tools/seedrun.sh "/verif/$d/patch.diff" "$prop" quick 2>&1)
   rc=$(echo "$out" | grep -o '^exit=[0-9]*' | head -1)
   n=$(echo "$out" | grep -o '^violations: [0-9]*' | head -1)
-  if [ "$rc" = "exit=1" ]; then echo "$s CAUGHT ($n)"; else echo "$s MISSED ($rc $n)"; fi
+  if [ "$rc" = "exit=1" ]; then echo "$s CAUGHT by $prop ($n)";
+  elif [ -n "$neut" ]; then echo "$s NEUTRALISED ($neut)";
+  else echo "$s MISSED ($rc $n)"; fi
 done
